@@ -21,14 +21,30 @@ class World:
         self.index = {}
         for k, tid in enumerate(ids):
             nm = (names or NAMES)[k % len(names or NAMES)]
-            rk = (ranks[k % len(ranks)] if ranks else k % 3)
+            rk = (ranks[k % len(ranks)] if ranks else (None if k % 4 == 3 else k % 3))
             self.add(Task(tid, nm, rank=rk))
         self.widx = {id(w): i for i, w in enumerate(self.ws)}
+        self.held_mode = False
+        self.held = {}
+        self.phase = 0
 
     def add(self, t):
         self.index[id(t)] = len(self.ts)
         self.ts.append(t)
         return len(self.ts) - 1
+
+    def view(self, kind, key, fetch):
+        """list object for (kind, owner): a freshly fetched one, or - in held mode - the one fetched the first time
+        (the way a caller keeps `kids = p.children` around)"""
+        if not self.held_mode:
+            return fetch()
+        k = (kind, key)
+        if k not in self.held:
+            self.held[k] = [fetch(), 0]
+        h = self.held[k]
+        h[1] += 1
+        # alternate between the kept object and a fresh one, so that each can go stale with respect to the other
+        return h[0] if (h[1] + self.phase) % 2 == 1 else fetch()
 
     def attrs(self):
         return {'id': [t.id for t in self.ts], 'name': [t.name for t in self.ts],
@@ -173,7 +189,13 @@ def run_op(world, op):
 
     def chl(i):
         o = own(i)
-        return o.children if i >= 0 else o.roots
+        return world.view('children', i, (lambda: o.children) if i >= 0 else (lambda: o.roots))
+
+    def preds(i):
+        return world.view('preds', i, lambda: ts[i].predecessors)
+
+    def succs(i):
+        return world.view('succs', i, lambda: ts[i].successors)
 
     def seq(s):
         return [None if x is None else ts[x] for x in s]
@@ -213,17 +235,17 @@ def run_op(world, op):
     if k == 'set_succs':
         s = seq(op[2]); T(op[1]).successors = s[0] if len(s) == 1 and len(op) > 3 and op[3] == 'single' else s; return None
     if k == 'pred_append':
-        return T(op[1]).predecessors.append(T(op[2]))
+        return preds(op[1]).append(T(op[2]))
     if k == 'pred_remove':
-        return T(op[1]).predecessors.remove(T(op[2]))
+        return preds(op[1]).remove(T(op[2]))
     if k == 'succ_append':
-        return T(op[1]).successors.append(T(op[2]))
+        return succs(op[1]).append(T(op[2]))
     if k == 'succ_remove':
-        return T(op[1]).successors.remove(T(op[2]))
+        return succs(op[1]).remove(T(op[2]))
     if k == 'pred_remove_all':
-        return T(op[1]).predecessors.remove_all(id_in_=list(op[2]))
+        return preds(op[1]).remove_all(id_in_=list(op[2]))
     if k == 'succ_remove_all':
-        return T(op[1]).successors.remove_all(id_in_=list(op[2]))
+        return succs(op[1]).remove_all(id_in_=list(op[2]))
     if k == 'floordiv':
         s = seq(op[2]); return own(op[1]) // (s if len(s) != 1 else s[0])
     if k == 'lshift':
@@ -317,6 +339,9 @@ def _lookup_checks(world, g, rep, op_desc):
             got = [world.index.get(id(t), -1) for t in w.tasks]
         except RecursionError:
             rep.viol.append(('C01', 'C01:recursive-getter-overflows:WBS.tasks', op_desc)); return
+        if len(set(got)) != len(got):
+            rep.viol.append(('C05', 'C05:WBS.tasks-lists-a-member-more-than-once', dict(op=op_desc, got=got)))
+            return
         if got != exp:
             rep.viol.append(('C05', 'C05:WBS.tasks-is-not-the-depth-first-enumeration', dict(op=op_desc, got=got, expected=exp)))
             return
@@ -365,6 +390,8 @@ def run_history(case, skip=None):
     """
     rep = Report()
     world = World(case['ids'], case.get('nw', 3), case.get('names'), case.get('ranks'))
+    world.held_mode = bool(case.get('held'))
+    world.phase = 1 if case.get('held') == 2 else 0
     rep.world = world
     nw = len(world.ws)
     g = snapshot(world)
@@ -487,8 +514,11 @@ def run_history(case, skip=None):
         # ---- invariants on the real state, whether the call returned or raised
         for clause in graph.invariants(post):
             rep.viol.append((clause[:3], '%s:after:%s' % (clause, sigtail), desc))
-        if not polluted and not any(p in ('C01', 'C05', 'C11') for p, _, _ in rep.viol):
-            _lookup_checks(world, post, rep, desc)
+        if not polluted and not any(p in ('C05', 'C11') for p, _, _ in rep.viol):
+            try:
+                _lookup_checks(world, post, rep, desc)      # C05's own clauses are judged even next to a C01 finding
+            except Exception:
+                pass
         if not polluted and not any(p in ('C01', 'C05', 'C11') for p, _, _ in rep.viol):
             _getter_checks(world, post, rep, desc)
         # ---- C11 bookkeeping
